@@ -56,11 +56,13 @@ from harness.core import Ctx, Driver, REPO, VERIF
 from harness import lib_c04gen as G
 from harness import lib_c04v as GV
 from harness import lib_c04w as GW
+from harness import lib_c04q as GQ
 
 PROPS = 'XsVerif.Props.C04'
 AUDIT = 'XsVerif.Audit.C04'
 LEAN_TARGETS = ['XsVerif.Props.C04', 'drv_c04']
 LEANCHECK = ['XsVerif.Model.Modes', 'XsVerif.Lemmas.Modes', 'XsVerif.Model.AttrDefaults', 'XsVerif.Lemmas.AttrDefaults',
+             'XsVerif.Model.NsLeak',
              'XsVerif.Props.C04']
 RULE = ('a case is one (XSD version, schema family, generated document); documents are valid instances damaged by '
         '0-5 faults drawn from 24 fault classes (content model, datatypes/facets, attribute uses, xsi:type / '
@@ -289,6 +291,8 @@ class Recorder:
     def __init__(self) -> None:
         self.log: list = []
         self.active = False
+        self.ns_obs: list = []
+        self.orig_ckf = None
 
     def install(self) -> None:
         import xmlschema.validators.validation as V
@@ -312,15 +316,30 @@ class Recorder:
         V.ValidationContext.raise_or_collect = raise_or_collect
         self.wrapper = raise_or_collect
 
+        # observation of the prefix map in force when the identity fields of an element are collected
+        import xmlschema.validators.elements as E
+        self.E = E
+        self.orig_ckf = orig_ckf = E.XsdElement.collect_key_fields
+
+        def collect_key_fields(el_self, obj, xsd_type, validation, nilled, context):
+            if rec.active:
+                rec.ns_obs.append((obj, dict(context.namespaces), context.source))
+            return orig_ckf(el_self, obj, xsd_type, validation, nilled, context)
+
+        E.XsdElement.collect_key_fields = collect_key_fields
+
     def uninstall(self) -> None:
         import xmlschema.validators.validation as V
         V.ValidationContext.raise_or_collect = self.orig
+        if self.orig_ckf is not None:
+            self.E.XsdElement.collect_key_fields = self.orig_ckf
 
     def record(self, make_gen: Callable[[], Any], mode: str = 'lax') -> list:
         """Chronological log of a run in `mode`.  Calls made with another mode are the internal *trial* decodings
         (XsdUnion tries every member type with 'strict' and catches the error, simple_types.py:1184-1190): they are
         not error events of the run and are dropped."""
         self.log = []
+        self.ns_obs = []
         self.active = True
         try:
             for item in make_gen():
@@ -328,6 +347,34 @@ class Recorder:
         finally:
             self.active = False
         return [ev for ev in self.log if ev[0] != 'call' or ev[2] == mode]
+
+
+def ns_scope_mismatches(xml: str, obs: list) -> list:
+    """The prefix maps observed when identity fields were collected against the XML Namespaces scoping rules
+    (in-scope declarations of the same element, computed by lxml): [(element index, tag, observed, in scope)]."""
+    import lxml.etree as LE
+    try:
+        root = LE.fromstring(xml.encode('utf-8'))
+    except LE.XMLSyntaxError:
+        return []
+    elems = [e for e in root.iter() if isinstance(e.tag, str)]
+    prefixes = sorted({p for e in elems for p in e.nsmap if p})
+    out = []
+    index: dict = {}
+    for obj, ns, source in obs:
+        r = getattr(source, 'root', None)
+        if r is None:
+            continue
+        if id(r) not in index:
+            index[id(r)] = {id(e): i for i, e in enumerate(r.iter())}
+        i = index[id(r)].get(id(obj))
+        if i is None or i >= len(elems) or elems[i].tag != obj.tag:
+            continue
+        want = {p: elems[i].nsmap.get(p) for p in prefixes}
+        got = {p: ns.get(p) for p in prefixes}
+        if want != got:
+            out.append((i, obj.tag, got, want))
+    return out
 
 
 class Ids:
@@ -593,9 +640,10 @@ class Env:
         self.schemas: dict = {}
         self.xsd_paths: dict = {}
         (self.tmp / GW.WK_FILE).write_text(GW.XSD_WK)
-        for fam in 'TNVW':
+        for fam in 'TNVWQ':
             for v11 in (False, True):
-                text = GV.xsd_text(v11) if fam == 'V' else GW.xsd_text(v11) if fam == 'W' else G.xsd_text(fam, v11)
+                text = GV.xsd_text(v11) if fam == 'V' else GW.xsd_text(v11) if fam == 'W' else \
+                    GQ.xsd_text(v11) if fam == 'Q' else G.xsd_text(fam, v11)
                 p = self.tmp / ('schema_%s_%s.xsd' % (fam, '11' if v11 else '10'))
                 p.write_text(text)
                 self.xsd_paths[fam, v11] = p
@@ -621,7 +669,7 @@ def canon_for(case: dict) -> Callable[[Any], Any]:
 
 
 def public_case(case: dict) -> dict:
-    return {k: case[k] for k in ('v', 'family', 'style', 'xml', 'faults', 'prefix_dependent', 'path', 'ud', 'lite', 'cm') if k in case}
+    return {k: case[k] for k in ('v', 'family', 'style', 'xml', 'faults', 'prefix_dependent', 'path', 'ud', 'lite', 'cm', 'nsv') if k in case}
 
 
 class SharedCopy:
@@ -750,9 +798,21 @@ def _run_case(env: Env, case: dict, kinds: list[str], reqs: Optional[list], pend
     vc_events = None
     try:
         log_v = env.rec.record(lambda: schema.iter_errors(case['xml'], **pkw))
+        ns_v = env.rec.ns_obs
         sv, an_v = build_script(log_v, ids, canon)
         log_d = env.rec.record(lambda: schema.iter_decode(case['xml'], validation='lax', **pkw))
+        ns_d = env.rec.ns_obs
         sd, an_d = build_script(log_d, ids, canon)
+        if (ns_v or ns_d) and 'xmlns' in case['xml'][case['xml'].find('>'):]:
+            # nested namespace declarations: the map in force where identity fields are resolved must be the
+            # element's own scope, in the validation run and in the decoding run (ns_scope_at_element_end)
+            ctx.count('ns-scope:elements-observed', len(ns_v) + len(ns_d))
+            for which, obs in (('iter_errors', ns_v), ('iter_decode', ns_d)):
+                bad = ns_scope_mismatches(case['xml'], obs)
+                ctx.traces += 1
+                if bad:
+                    ctx.mismatch('prefix map when the identity fields of an element are collected (%s)' % which, pc,
+                                 [(i, t, g) for i, t, g, _w in bad[:3]], [(i, t, w) for i, t, _g, w in bad[:3]])
         scripts = (sv, sd, an_v + an_d)
         vc_events = tuple([x for x in (GV.event_of(ev[3].reason) for ev in lg if ev[0] == 'call') if x]
                           for lg in (log_v, log_d))
@@ -855,7 +915,8 @@ def _run_case(env: Env, case: dict, kinds: list[str], reqs: Optional[list], pend
     nerr = len(outs['text'].get('iter_errors', {}).get('ok', []) or []) if isinstance(outs['text'].get('iter_errors'), dict) else 0
     ctx.case({'v': case['v'], 'family': case['family'], 'xml': case['xml'], 'path': path, 'ud': ud},
              invalid or len(case['xml']) > 400,
-             tag='%s/%s%s%s' % (case['v'], case['family'], '/path' if path else '', ('' if ud else '/use_defaults=False') + ('/comments' if case.get('cm') else '')))
+             tag='%s/%s%s%s' % (case['v'], case['family'], '/path' if path else '', ('' if ud else '/use_defaults=False') + ('/comments' if case.get('cm') else '') +
+                 ('/redeclared' if case.get('nsv') else '')))
     ctx.count('use_defaults:' + ('on' if ud else 'off'))
     for t in case.get('omitted', []):
         ctx.count('V:omitted:' + t)           # value constraint in effect: the instance omits the attribute / text
@@ -863,6 +924,10 @@ def _run_case(env: Env, case: dict, kinds: list[str], reqs: Optional[list], pend
         ctx.count('V:explicit:' + t)
     for t in case.get('idims', []):
         ctx.count('I:' + t)
+    for t in case.get('qdims', []):
+        ctx.count('Q:' + t)                    # identity field kind, where the prefix is re-bound, …
+    for t in case.get('nsv', []):
+        ctx.count('redeclared:' + t)           # meaning-preserving nested namespace declaration
     if case.get('cm'):
         ctx.count('cm:' + case['cm'])
     for t in case.get('dims', []):
@@ -905,6 +970,8 @@ def component_case(env: Env, case: dict, schema: Any, canon: Callable, reqs: Opt
         tag = '{%s}%s' % (G.TNS, m.group(1) if m else 'reg')
     elif case['family'] == 'I':
         tag = 'top'
+    elif case['family'] == 'Q':
+        tag = 'root'
     else:
         tag = ('{%s}root' % G.TNS) if case['family'] == 'T' else 'doc'
     xsd_element = schema.maps.elements.get(tag)
@@ -1407,7 +1474,23 @@ def gen_cases(ctx: Ctx, n: int) -> list[dict]:
             d = dict(c, xml=xml, cm=where)
             d.pop('lite', None)
             cmcases.append(d)
-    return cases + extra + vcases + nodef + wcases + icases + cmcases
+    # family Q: identity constraints over QName-valued fields x where the prefix of the value is re-bound (small scope:
+    # every field x every place, same local names), then random documents
+    qcases = GQ.small_scope_Q(ctx.rng)
+    for _ in range(max(8, n // 5)):
+        qcases.append(GQ.gen_case_Q(ctx.rng, ctx.rng.random() < 0.5))
+    for c in qcases:
+        if ctx.rng.random() < 0.7:
+            c['lite'] = True
+    # nested namespace declarations in every family: 1-3 declarations of prefixes that the subtree does not use are added
+    # to inner elements (the document means the same); sources that carry declarations must still agree
+    nscases = []
+    for c in cases + vcases + wcases + icases:
+        if ctx.rng.random() < 0.1 and not c.get('path'):
+            xml, added = GQ.redeclare(ctx.rng, c['xml'], ctx.rng.choice([1, 2, 3]))
+            if added:
+                nscases.append(dict(c, xml=xml, nsv=added, lite=True))
+    return cases + extra + vcases + nodef + wcases + icases + cmcases + qcases + nscases
 
 
 COMMENT_NODES = ['<!-- c -->', '<?pi x?>', '<!---->', '<!-- a --><?p?>']
@@ -1458,6 +1541,11 @@ def witness_cases() -> list[dict]:
         {'v': '1.0', 'family': 'W', 'style': 'prefix', 'prefix_dependent': False,
          'faults': ['W attr strict not found(target)'], 'dims': ['attr:strict:not found(target)'],
          'xml': '<p:box %s><p:ws p:zz="1"/></p:box>' % GW.ROOT_NS},
+        # ns_leak_counterexample: unique QName field, the prefix of the value is re-bound on the last child
+        {'v': '1.0', 'family': 'Q', 'style': 'prefix', 'prefix_dependent': True, 'faults': [],
+         'qdims': ['field:code', 'rebind-at:last-child'],
+         'xml': '<root xmlns:p="urn:a"><item code="p:x"><note>n</note><tail xmlns:p="urn:b">t</tail></item>'
+                '<item code="p:x"/></root>'},
         # unshared_scope_counterexample / finding C04-F5: the only error is below an element with an inheritable attribute
         GW.doc_I(1, 'a'),
         # findings C04-F6 / C04-F7: a comment / PI node inside simple content, inside xs:anyType content
@@ -1489,7 +1577,7 @@ def run(ctx: Ctx, driver_ok: bool) -> None:
         if drv and reqs:
             compare(ctx, reqs, pend, drv)
         wildcard_unit(env, drv)
-        sample = [c for c in cases[len(witness_cases()):] if c['family'] in 'TNVW' and c.get('ud', True)]
+        sample = [c for c in cases[len(witness_cases()):] if c['family'] in 'TNVWQ' and c.get('ud', True) and not c.get('cm')]
         ctx.rng.shuffle(sample)
         cli_checks(env, drv, sample[:ctx.pick(6, 40)])
         ctx.extra['source_kinds'] = SOURCE_KINDS
@@ -1620,12 +1708,20 @@ def value_constraint_family(ctx: Ctx) -> None:
 def search(ctx: Ctx) -> None:
     """A proof or the tie broke and nothing failed so far: evaluate the property on a larger seeded family."""
     env = Env(ctx)
+    import time
+    t0 = time.time()
+    box = ctx.pick(60, 600)            # seconds
     try:
-        for case in gen_cases(ctx, ctx.pick(1500, 4000)):
+        cases = gen_cases(ctx, ctx.pick(1500, 4000))
+        ctx.rng.shuffle(cases)         # every family is sampled inside the time box
+        for case in cases:
             run_case(env, case, kinds_for(case), None, None)
             if ctx.failures:
                 break
-        if not ctx.failures:
+            if time.time() - t0 > box:
+                ctx.notes.append('widened search stopped after its time box of %d s' % box)
+                break
+        if not ctx.failures and time.time() - t0 <= box:
             cli_checks(env, None, [])
     finally:
         env.close()
